@@ -25,7 +25,14 @@ def corpus(pid, tier, seed):
         from . import proggen
     except ImportError:
         return out
-    out += proggen.programs(pid, tier, seed)
+    gen = proggen.programs(pid, tier, seed)
+    if tier != "quick" and pid in ("C02", "C03", "C05", "C06") and len(gen) > 5000:
+        import random
+        rng = random.Random(seed)
+        gen = list(gen)
+        rng.shuffle(gen)
+        gen = gen[:5000]
+    out += gen
     if pid in ("C03", "C06"):
         out += exprgen_programs(tier, seed)
     return out
